@@ -3,7 +3,9 @@
 E1 (complete product enumeration + depth-2 closure): every monad x every operand and every dyad x every ordered operand
 pair of a closed universe, evaluated as source text `VERB(<a>)` / `(<a>)VERB(<b>)` by KlongInterpreter.__call__ and
 compared with the reference model mc.ref.verbs (written from the reference text; validated against the reference's own
-examples).  Depth 2: compositions whose intermediate result has a runtime representation that no literal produces.
+examples).  Depth 2: compositions whose intermediate result has a runtime representation that no literal produces; only
+intermediate results that agree with the reference are extended (a deviating one is reported once, at depth 1, and
+would otherwise be reported again under every outer verb with an expected value computed from another operand).
 """
 import json
 
@@ -13,7 +15,7 @@ from klongpy import KlongInterpreter
 
 from .. import runner
 from ..ref import verbs, verbs_examples
-from ..values import I, R, C, S, Y, L, cn, lit, show, from_py as P
+from ..values import I, R, C, S, Y, L, cn, lit, show, norm, from_py as P
 
 MONADS = ['@', ':#', '!', '&', '*', '_', '$', '<', '>', '=', ',', '-', '~', '?', '%', '|', '^', '#', '+', ':_']
 DYADS = ['+', '-', '*', '%', ':%', '!', '^', '&', '|', '<', '>', '=', '~', ',', '#', '_', '@', ':@', '?', ':#', ':_', ':+',
@@ -34,6 +36,10 @@ def universe(quick):
               [C('a'), C('b')], [Y('foo'), Y('x')], ['abc', 1, 2], [C('x'), 1, 3], [9, 0, 1], [[9, 9], 1], [42, 0, 1],
               ['xx', 1, 4], [0, 0], [2, 3, 5], [1, 1]]
     u = [P(x) for x in ints + reals] + chars + [P(x) for x in strs] + syms + [P(x) for x in vecs + mats + nested]
+    # the literal of a rectangular numeric list with one real element evaluates to an all-real block ([2 0.5] is [2.0 0.5]):
+    # the reference model is given the operand the interpreter holds, not the spelling (otherwise structural verbs that take
+    # such a list apart - Cut, Split, Take - would be expected to hand back an integer that no longer exists)
+    u = [norm(x) for x in u]
     if quick:
         keep = ([P(x) for x in [0, 1, -1, 2, 3, -3, 7, 123456789012, 0.5, -1.5, 2.0, 5.3]] + chars[:3] + [C('"')]
                 + [P(x) for x in ['', 'a', 'abc', 'hello foo', '-123', '1.5']] + syms[:1]
@@ -42,7 +48,7 @@ def universe(quick):
                 + [P(x) for x in mats[:3] + [mats[4]]]
                 + [P(x) for x in [[1, [2, 3]], [1, [2, 3, 4]], [[1], [2, 3]], [[], [1]], ['ab', 'cd'], [1, 'a', C('b'), Y('foo')],
                                   [C('x'), 1, 3], [9, 0, 1], [42, 0, 1], ['xx', 1, 4], [2, 3, 5], [1, 1]]])
-        return keep
+        return [norm(x) for x in keep]
     return u
 
 
@@ -97,6 +103,7 @@ def check_case(kl, text, expected, out, group):
     if not ok:
         out['violations'].append(dict(key=text, observed=observed, expected=desc, group=group, case={'text': text},
                                       snippet='from klongpy import KlongInterpreter\nprint(repr(KlongInterpreter()(%r)))' % text))
+        return ('bad', got[1], got[2])
     return got
 
 
